@@ -284,8 +284,11 @@ class LinearPolynomial(BaseDeferred):
         new_constant_term = self.constant_term
 
         for key, value in self.coeffs.items():
-            with try_compute:
-                key = key.wait()
+            # A variable that is being awaited right now (e.g. the link base while it
+            # is computed) is kept symbolic so that it can cancel out
+            if not key.is_awaiting:
+                with try_compute:
+                    key = key.wait()
             if isinstance(key, BaseDeferred):
                 key = key.get_current_best_estimate()
 
